@@ -1,7 +1,987 @@
 /-
-  Property C08 — theorems about QEModel.C08 (stub; to be filled in).
+  Property C08 — quadrature rules integrate exactly what their order promises:
+  theorems about QEModel.C08 (the definitions the driver `qedriver_c08` executes).
+
+  `K` is any linearly ordered field (ℚ, ℝ): exact arithmetic.  The floating-point rounding of
+  the real code is *not* covered here; it is the rounding envelope of the correspondence run.
 -/
 import QEModel.C08
+import QEProofs.Lemmas.C08Basic
+import QEProofs.Lemmas.C08Closed
+import QEProofs.Lemmas.C08Tensor
+import QEProofs.Lemmas.C08Affine
+import QEProofs.Lemmas.C08Product
+import QEProofs.Lemmas.C08Rec
+import QEProofs.Lemmas.C08Sym
+import QEProofs.Lemmas.C08Normal
+import QEProofs.Lemmas.C08Deriv
+import QEProofs.Lemmas.C08Lag
+import QEProofs.Lemmas.C08Herm
+import QEProofs.Lemmas.C08Jac
+import QEProofs.Lemmas.C08JacDeriv
+import QEProofs.Lemmas.C08Gauss
+import QEProofs.Lemmas.C08Orth
+import Mathlib.Tactic.IntervalCases
+import Mathlib.Algebra.Polynomial.Eval.Degree
+import Mathlib.Analysis.Real.Sqrt
+import Mathlib.Tactic.NormNum
+import Mathlib.Tactic.SplitIfs
 namespace QE.C08
+open Finset
+
+set_option linter.unusedSectionVars false
+
+variable {K : Type} [Field K] [LinearOrder K] [IsStrictOrderedRing K]
+
+/-! ## Trapezoid rule (`_qnwtrap1`) -/
+
+/-- **qnwtrap is exact for degree ≤ 1, for every n ≥ 2 and every interval.**
+    `trapRule n a b` succeeds with `n` nodes and `n` weights, and
+    `Σ wᵢ (c₀ + c₁ xᵢ) = c₀ (b−a) + c₁ (b²−a²)/2 = ∫ₐᵇ (c₀ + c₁ t) dt`.
+    (Induction over the number of panels; no hypothesis `a < b` is needed for exactness.) -/
+theorem trap_exact_deg1 (n : Nat) (hn : 2 ≤ n) (a b : K) :
+    ∃ nodes weights, trapRule n a b = some (nodes, weights) ∧ nodes.length = n ∧ weights.length = n ∧
+      ∀ c0 c1 : K, quadSum weights nodes (fun t => c0 + c1 * t)
+        = c0 * (b - a) + c1 * ((b ^ 2 - a ^ 2) / 2) := by
+  refine ⟨_, _, trapRule_eq n hn a b, by simp, by simp, ?_⟩
+  intro c0 c1
+  rw [quadSum_map_range]
+  obtain ⟨m, rfl⟩ : ∃ m, n = m + 1 := ⟨n - 1, by omega⟩
+  rw [trap_sum_of_panel m (by omega) a b (fun t => c0 + c1 * t) (fun t => c0 * t + c1 * (t ^ 2 / 2))
+    (by intro x h; ring)]
+  ring
+
+/-- moment form of `trap_exact_deg1`: `Σ wᵢ xᵢᵏ = (b^{k+1} − a^{k+1})/(k+1)` for `k ≤ 1` -/
+theorem trap_moments (n : Nat) (hn : 2 ≤ n) (a b : K) (nodes weights : List K)
+    (h : trapRule n a b = some (nodes, weights)) (k : Nat) (hk : k ≤ 1) :
+    quadSum weights nodes (fun t => t ^ k) = (b ^ (k + 1) - a ^ (k + 1)) / ((k + 1 : Nat) : K) := by
+  obtain ⟨x, w, h', _, _, hex⟩ := trap_exact_deg1 n hn a b
+  rw [h'] at h
+  obtain ⟨rfl, rfl⟩ : x = nodes ∧ w = weights := by simpa using h
+  interval_cases k
+  · have := hex 1 0
+    simp only [zero_mul, add_zero, one_mul] at this
+    simpa using this
+  · have := hex 0 1
+    simp only [zero_mul, zero_add, one_mul] at this
+    rw [show (fun t : K => t ^ 1) = fun t => 0 + 1 * t by funext t; ring, hex 0 1]
+    push_cast; ring
+
+/-- **qnwtrap: support, positivity, total mass.** For `a < b` and `n ≥ 2`: every node lies in
+    `[a, b]`, the first node is `a`, the last is `b`, every weight is positive, and the weights
+    sum to `b − a`. -/
+theorem trap_support_positive (n : Nat) (hn : 2 ≤ n) (a b : K) (hab : a < b) (nodes weights : List K)
+    (h : trapRule n a b = some (nodes, weights)) :
+    (∀ x ∈ nodes, a ≤ x ∧ x ≤ b) ∧ nodes.getD 0 0 = a ∧ nodes.getD (n - 1) 0 = b ∧
+    (∀ w ∈ weights, 0 < w) ∧ quadSum weights nodes (fun _ => 1) = b - a := by
+  rw [trapRule_eq n hn a b] at h
+  obtain ⟨rfl, rfl⟩ : (List.range n).map (node n a b) = nodes ∧
+      ((List.range n).map fun i => (b - a) / ((n - 1 : Nat) : K) * trapCoef n i) = weights := by
+    simpa using h
+  have hpos : (0 : K) < ((n - 1 : Nat) : K) := by
+    have : 0 < n - 1 := by omega
+    exact_mod_cast this
+  have hstep : 0 < (b - a) / ((n - 1 : Nat) : K) := div_pos (sub_pos.mpr hab) hpos
+  refine ⟨?_, ?_, ?_, ?_, ?_⟩
+  · intro x hx
+    obtain ⟨i, hi, rfl⟩ := List.mem_map.mp hx
+    have hi' : i < n := by simpa using hi
+    unfold node
+    constructor
+    · have : 0 ≤ (i : K) * ((b - a) / ((n - 1 : Nat) : K)) :=
+        mul_nonneg (Nat.cast_nonneg i) hstep.le
+      linarith
+    · have hle : (i : K) ≤ ((n - 1 : Nat) : K) := by
+        have : i ≤ n - 1 := by omega
+        exact_mod_cast this
+      have h1 : (i : K) * ((b - a) / ((n - 1 : Nat) : K)) ≤ ((n - 1 : Nat) : K) * ((b - a) / ((n - 1 : Nat) : K)) :=
+        mul_le_mul_of_nonneg_right hle hstep.le
+      have h2 : ((n - 1 : Nat) : K) * ((b - a) / ((n - 1 : Nat) : K)) = b - a := by
+        field_simp
+      linarith
+  · simp [List.getD_eq_getElem?_getD, show 0 < n by omega, node_zero]
+  · simp [List.getD_eq_getElem?_getD, show n - 1 < n by omega, node_last n a b hn]
+  · intro w hw
+    obtain ⟨i, _, rfl⟩ := List.mem_map.mp hw
+    apply mul_pos hstep
+    unfold trapCoef
+    split <;> norm_num
+  · have := (trap_exact_deg1 n hn a b)
+    obtain ⟨x, w, h', _, _, hex⟩ := this
+    rw [trapRule_eq n hn a b] at h'
+    obtain ⟨rfl, rfl⟩ : (List.range n).map (node n a b) = x ∧
+        ((List.range n).map fun i => (b - a) / ((n - 1 : Nat) : K) * trapCoef n i) = w := by
+      simpa using h'
+    have := hex 1 0
+    simpa using this
+
+/-- non-vacuity: the model at `ℚ`, 4 nodes on `[0, 3]` -/
+example : trapRule 4 (0 : Rat) 3 = some ([0, 1, 2, 3], [1 / 2, 1, 1, 1 / 2]) := by decide +kernel
+
+/-! ## Simpson rule (`_qnwsimp1`) -/
+
+/-- **qnwsimp is exact for degree ≤ 3, for every requested n ≥ 2 (an even n is rounded up to
+    n+1, so at least three nodes) and every interval.**
+    `Σ wᵢ p(xᵢ) = ∫ₐᵇ p` for `p(t) = c₀ + c₁ t + c₂ t² + c₃ t³`.
+    (Induction over the number of panels; the three-point identity is `ring`.) -/
+theorem simp_exact_deg3 (n0 : Nat) (hn : 2 ≤ n0) (a b : K) :
+    (simpRule n0 a b).1.length = simpN n0 ∧ (simpRule n0 a b).2.length = simpN n0 ∧
+    (simpN n0 % 2 = 1 ∧ n0 ≤ simpN n0 ∧ simpN n0 ≤ n0 + 1) ∧
+      ∀ c0 c1 c2 c3 : K,
+        quadSum (simpRule n0 a b).2 (simpRule n0 a b).1 (fun t => c0 + c1 * t + c2 * t ^ 2 + c3 * t ^ 3)
+          = c0 * (b - a) + c1 * ((b ^ 2 - a ^ 2) / 2) + c2 * ((b ^ 3 - a ^ 3) / 3)
+            + c3 * ((b ^ 4 - a ^ 4) / 4) := by
+  rw [simpRule_eq n0 hn a b, simpN_eq]
+  refine ⟨by simp, by simp, by omega, ?_⟩
+  intro c0 c1 c2 c3
+  dsimp only
+  rw [quadSum_map_range]
+  rw [simp_sum_of_panel (n0 / 2) (by omega) a b (fun t => c0 + c1 * t + c2 * t ^ 2 + c3 * t ^ 3)
+    (fun t => c0 * t + c1 * (t ^ 2 / 2) + c2 * (t ^ 3 / 3) + c3 * (t ^ 4 / 4)) (by intro x h; ring)]
+  ring
+
+/-- moment form of `simp_exact_deg3`: `Σ wᵢ xᵢᵏ = (b^{k+1} − a^{k+1})/(k+1)` for `k ≤ 3` -/
+theorem simp_moments (n0 : Nat) (hn : 2 ≤ n0) (a b : K) (k : Nat) (hk : k ≤ 3) :
+    quadSum (simpRule n0 a b).2 (simpRule n0 a b).1 (fun t => t ^ k)
+      = (b ^ (k + 1) - a ^ (k + 1)) / ((k + 1 : Nat) : K) := by
+  obtain ⟨_, _, _, hex⟩ := simp_exact_deg3 n0 hn a b
+  interval_cases k
+  · rw [show (fun t : K => t ^ 0) = fun t => 1 + 0 * t + 0 * t ^ 2 + 0 * t ^ 3 by funext t; ring, hex]
+    push_cast; ring
+  · rw [show (fun t : K => t ^ 1) = fun t => 0 + 1 * t + 0 * t ^ 2 + 0 * t ^ 3 by funext t; ring, hex]
+    push_cast; ring
+  · rw [show (fun t : K => t ^ 2) = fun t => 0 + 0 * t + 1 * t ^ 2 + 0 * t ^ 3 by funext t; ring, hex]
+    push_cast; ring
+  · rw [show (fun t : K => t ^ 3) = fun t => 0 + 0 * t + 0 * t ^ 2 + 1 * t ^ 3 by funext t; ring, hex]
+    push_cast; ring
+
+/-- **qnwsimp: support, positivity, total mass** for `a < b`, requested `n ≥ 2`. -/
+theorem simp_support_positive (n0 : Nat) (hn : 2 ≤ n0) (a b : K) (hab : a < b) :
+    (∀ x ∈ (simpRule n0 a b).1, a ≤ x ∧ x ≤ b) ∧ (simpRule n0 a b).1.getD 0 0 = a ∧
+    (simpRule n0 a b).1.getD (simpN n0 - 1) 0 = b ∧
+    (∀ w ∈ (simpRule n0 a b).2, 0 < w) ∧
+    quadSum (simpRule n0 a b).2 (simpRule n0 a b).1 (fun _ => 1) = b - a := by
+  have hmass := simp_moments n0 hn a b 0 (by omega)
+  rw [simpRule_eq n0 hn a b, simpN_eq] at *
+  dsimp only at *
+  set n := 2 * (n0 / 2) + 1 with hn_def
+  have hn2 : 2 ≤ n := by omega
+  have hpos : (0 : K) < ((n - 1 : Nat) : K) := by
+    have : 0 < n - 1 := by omega
+    exact_mod_cast this
+  have hstep : 0 < (b - a) / ((n - 1 : Nat) : K) := div_pos (sub_pos.mpr hab) hpos
+  refine ⟨?_, ?_, ?_, ?_, ?_⟩
+  · intro x hx
+    obtain ⟨i, hi, rfl⟩ := List.mem_map.mp hx
+    have hi' : i < n := by simpa using hi
+    unfold node
+    constructor
+    · have : 0 ≤ (i : K) * ((b - a) / ((n - 1 : Nat) : K)) :=
+        mul_nonneg (Nat.cast_nonneg i) hstep.le
+      linarith
+    · have hle : (i : K) ≤ ((n - 1 : Nat) : K) := by
+        have : i ≤ n - 1 := by omega
+        exact_mod_cast this
+      have h1 : (i : K) * ((b - a) / ((n - 1 : Nat) : K)) ≤ ((n - 1 : Nat) : K) * ((b - a) / ((n - 1 : Nat) : K)) :=
+        mul_le_mul_of_nonneg_right hle hstep.le
+      have h2 : ((n - 1 : Nat) : K) * ((b - a) / ((n - 1 : Nat) : K)) = b - a := by
+        field_simp
+      linarith
+  · simp [List.getD_eq_getElem?_getD, show 0 < n by omega, node_zero]
+  · simp [List.getD_eq_getElem?_getD, show n - 1 < n by omega, node_last n a b hn2]
+  · intro w hw
+    obtain ⟨i, _, rfl⟩ := List.mem_map.mp hw
+    apply mul_pos (div_pos hstep (by norm_num))
+    unfold simpCoef
+    split_ifs <;> norm_num
+  · simpa using hmass
+
+/-- non-vacuity: an even `n = 4` is rounded up to 5 nodes -/
+example : simpRule 4 (0 : Rat) 4 = ([0, 1, 2, 3, 4], [1 / 3, 4 / 3, 2 / 3, 4 / 3, 1 / 3]) := by
+  decide +kernel
+
+/-! ## Moments imply exactness on all polynomials (linearity) -/
+
+/-- **moments_imply_exactness.** If a rule `(nodes, weights)` reproduces the moments
+    `Σ wᵢ xᵢᵏ = μ k` for all `k ≤ D`, then for every polynomial `p(t) = Σ_{k ≤ D} c k · tᵏ` of
+    degree ≤ D it returns `Σ_{k ≤ D} c k · μ k` (the value of the linear functional with those
+    moments).  This lifts the finitely many moment conditions checked by the spec run to all
+    polynomials up to the degree of the rule. -/
+theorem moments_imply_exactness (nodes weights : List K) (hlen : weights.length = nodes.length)
+    (D : Nat) (μ : Nat → K)
+    (hm : ∀ k, k ≤ D → quadSum weights nodes (fun t => t ^ k) = μ k) (c : Nat → K) :
+    quadSum weights nodes (fun t => ∑ k ∈ range (D + 1), c k * t ^ k) = ∑ k ∈ range (D + 1), c k * μ k := by
+  have hq : ∀ F : K → K, quadSum weights nodes F
+      = ∑ i ∈ range weights.length, weights.getD i 0 * F (nodes.getD i 0) := by
+    intro F
+    unfold quadSum
+    rw [dot_eq_sum _ _ (by simp [hlen])]
+    apply Finset.sum_congr rfl
+    intro i hi
+    have : i < nodes.length := by rw [← hlen]; simpa using hi
+    simp [List.getD_eq_getElem?_getD, this]
+  rw [hq]
+  simp only [Finset.mul_sum]
+  rw [Finset.sum_comm]
+  apply Finset.sum_congr rfl
+  intro k hk
+  have hk' : k ≤ D := by have := Finset.mem_range.mp hk; omega
+  rw [← hm k hk', hq, Finset.mul_sum]
+  apply Finset.sum_congr rfl
+  intro i _
+  ring
+
+/-- `moments_imply_exactness` for Mathlib polynomials: a rule with the moments `μ k`, `k ≤ D`,
+    evaluates every `p : K[X]` of degree ≤ D to `Σ_{k ≤ D} p.coeff k · μ k`. -/
+theorem moments_imply_exactness_poly (nodes weights : List K) (hlen : weights.length = nodes.length)
+    (D : Nat) (μ : Nat → K)
+    (hm : ∀ k, k ≤ D → quadSum weights nodes (fun t => t ^ k) = μ k)
+    (p : Polynomial K) (hp : p.natDegree ≤ D) :
+    quadSum weights nodes (fun t => p.eval t) = ∑ k ∈ range (D + 1), p.coeff k * μ k := by
+  rw [← moments_imply_exactness nodes weights hlen D μ hm (fun k => p.coeff k)]
+  congr 1
+  funext t
+  exact Polynomial.eval_eq_sum_range' (by omega) t
+
+/-- **qnwsimp integrates every polynomial of degree ≤ 3 exactly**, for every requested
+    `n ≥ 2` and every interval: `Σ wᵢ p(xᵢ) = Σ_k p_k (b^{k+1} − a^{k+1})/(k+1) = ∫ₐᵇ p`. -/
+theorem simp_exact_poly (n0 : Nat) (hn : 2 ≤ n0) (a b : K) (p : Polynomial K) (hp : p.natDegree ≤ 3) :
+    quadSum (simpRule n0 a b).2 (simpRule n0 a b).1 (fun t => p.eval t)
+      = ∑ k ∈ range 4, p.coeff k * ((b ^ (k + 1) - a ^ (k + 1)) / ((k + 1 : Nat) : K)) := by
+  obtain ⟨h1, h2, _, _⟩ := simp_exact_deg3 n0 hn a b
+  exact moments_imply_exactness_poly _ _ (by rw [h1, h2]) 3 _
+    (fun k hk => simp_moments n0 hn a b k hk) p hp
+
+/-- **qnwtrap integrates every polynomial of degree ≤ 1 exactly**, for every `n ≥ 2`. -/
+theorem trap_exact_poly (n : Nat) (hn : 2 ≤ n) (a b : K) (nodes weights : List K)
+    (h : trapRule n a b = some (nodes, weights)) (p : Polynomial K) (hp : p.natDegree ≤ 1) :
+    quadSum weights nodes (fun t => p.eval t)
+      = ∑ k ∈ range 2, p.coeff k * ((b ^ (k + 1) - a ^ (k + 1)) / ((k + 1 : Nat) : K)) := by
+  obtain ⟨x, w, h', h1, h2, _⟩ := trap_exact_deg1 n hn a b
+  rw [h'] at h
+  obtain ⟨rfl, rfl⟩ : x = nodes ∧ w = weights := by simpa using h
+  exact moments_imply_exactness_poly _ _ (by rw [h1, h2]) 1 _
+    (fun k hk => trap_moments n hn a b x w h' k hk) p hp
+
+/-- non-vacuity of `moments_imply_exactness`: Simpson's 3-point rule on `[0,2]` has the moments
+    `2, 2, 8/3, 4` of Lebesgue measure up to degree 3 -/
+example : ∀ k, k ≤ 3 → quadSum (simpRule 3 (0 : Rat) 2).2 (simpRule 3 (0 : Rat) 2).1 (fun t => t ^ k)
+    = (2 ^ (k + 1) - 0 ^ (k + 1)) / ((k + 1 : Nat) : Rat) :=
+  fun k hk => simp_moments 3 (by omega) 0 2 k hk
+
+/-! ## Why a Gauss rule reaches degree 2n − 1 (reduction; the three premises are not proved) -/
+
+/-- **Gauss exactness, reduced to three premises — partial.**  Let `Λ` be any linear functional
+    on `K[X]` (the integral against the weight function), `P` a polynomial of degree `n` such that
+    (1) every node is a root of `P`, (2) `Λ(P·q) = 0` for every `q` of degree `< n`
+    (orthogonality), and (3) the rule reproduces `Λ` on polynomials of degree `< n`
+    (interpolatory weights).  Then the rule reproduces `Λ` on **every** polynomial of degree
+    `< 2n`.
+    *Missing* for qnwlege / qnwnorm / qnwbeta / qnwgamma: (1) that the Newton iteration ends at the
+    roots (floating point), (2) orthogonality of the recurrence-defined `legendrePoly`,
+    `hermPoly`, `jacobiPoly`, `laguerrePoly` under the Lebesgue / normal / beta / gamma moments,
+    (3) that the closed-form weights (`2/((1−z²)pp²)` …) are the interpolatory ones
+    (Christoffel-Darboux).  These are covered only by the exact moment check of the spec run. -/
+theorem gauss_exactness_reduction_partial (nodes weights : List K) (n : Nat) (P : Polynomial K)
+    (hPdeg : P.degree = (n : WithBot Nat)) (Λ : Polynomial K →ₗ[K] K)
+    (hroot : ∀ x ∈ nodes, P.eval x = 0)
+    (horth : ∀ q : Polynomial K, q.degree < (n : WithBot Nat) → Λ (P * q) = 0)
+    (hint : ∀ r : Polynomial K, r.degree < (n : WithBot Nat) →
+      quadSum weights nodes (fun t => r.eval t) = Λ r)
+    (p : Polynomial K) (hp : p.degree < ((n + n : Nat) : WithBot Nat)) :
+    quadSum weights nodes (fun t => p.eval t) = Λ p :=
+  gauss_reduction nodes weights n P hPdeg Λ hroot horth hint p hp
+
+/-- non-vacuity: the midpoint rule on `[−1, 1]` (`n = 1`, `P = X`, `Λ` = the Lebesgue moments
+    `2, 0, 2/3` on degrees 0, 1, 2) satisfies the three premises -/
+example :
+    let Λ : Polynomial ℚ →ₗ[ℚ] ℚ := (2 : ℚ) • Polynomial.lcoeff ℚ 0 + (2 / 3 : ℚ) • Polynomial.lcoeff ℚ 2
+    (Polynomial.X : Polynomial ℚ).degree = ((1 : Nat) : WithBot Nat) ∧
+    (∀ x ∈ [(0 : ℚ)], (Polynomial.X : Polynomial ℚ).eval x = 0) ∧
+    (∀ q : Polynomial ℚ, q.degree < ((1 : Nat) : WithBot Nat) → Λ (Polynomial.X * q) = 0) ∧
+    (∀ r : Polynomial ℚ, r.degree < ((1 : Nat) : WithBot Nat) →
+      quadSum [(2 : ℚ)] [0] (fun t => r.eval t) = Λ r) := by
+  intro Λ
+  have hC : ∀ q : Polynomial ℚ, q.degree < ((1 : Nat) : WithBot Nat) → q = Polynomial.C (q.coeff 0) := by
+    intro q hq
+    apply Polynomial.eq_C_of_degree_le_zero
+    have : q.degree < 1 := by simpa using hq
+    exact Nat.WithBot.lt_one_iff_le_zero.mp this
+  refine ⟨by simp, by simp, ?_, ?_⟩
+  · intro q hq
+    rw [hC q hq]
+    simp [Λ]
+  · intro r hr
+    rw [hC r hr]
+    simp [Λ, quadSum, dot]
+
+/-! ## Tensor products: `gridmake(*nodes)` and `ckron(*weights[::-1])` use the same order -/
+
+/-- **tensor_order.** Let `xs`, `ws` be the one-dimensional nodes and weights of `d ≥ 2`
+    dimensions with `|x_k| = |w_k| = n_k`.  `tensorRule` (the `d ≥ 2` path of
+    `_make_multidim_func`) succeeds with `N = Π n_k` rows and weights, and for **every**
+    multi-index `is = (i_k)` with `i_k < n_k`, at the *same* position
+    `idx = i₀ + n₀ (i₁ + n₁ (i₂ + …))` (`mixedRadix`, first index fastest)
+    the node row is `(x_k[i_k])_k` and the weight is `Π_k w_k[i_k]`. -/
+theorem tensor_order (xs ws : List (List K)) (is : List Nat) (hd : 2 ≤ xs.length)
+    (hshape : ws.map List.length = xs.map List.length)
+    (h : List.Forall₂ (fun i (x : List K) => i < x.length) is xs) :
+    ∃ g w, tensorRule xs ws = some (g, w) ∧
+      g.length = (xs.map List.length).prod ∧ w.length = (xs.map List.length).prod ∧
+      mixedRadix is (xs.map List.length) < (xs.map List.length).prod ∧
+      g[mixedRadix is (xs.map List.length)]? = some (List.zipWith (fun (x : List K) i => x.getD i 0) xs is) ∧
+      w.getD (mixedRadix is (xs.map List.length)) 0
+        = (List.zipWith (fun (w : List K) i => w.getD i 0) ws is).prod := by
+  have hxne : xs ≠ [] := by intro h0; subst h0; simp at hd
+  have hwne : ws ≠ [] := by
+    intro h0; subst h0
+    have h1 := congrArg List.length hshape
+    simp only [List.map_nil, List.length_nil, List.length_map] at h1
+    omega
+  have hw : List.Forall₂ (fun i (w : List K) => i < w.length) is ws := by
+    have h1 : List.Forall₂ (fun i n => i < n) is (xs.map List.length) :=
+      List.forall₂_map_right_iff.mpr h
+    rw [← hshape] at h1
+    exact List.forall₂_map_right_iff.mp h1
+  obtain ⟨g1, g2⟩ := gridRows_index xs is hxne h
+  obtain ⟨w1, w2⟩ := ckronRev_index ws is hwne hw
+  have hck : ∃ w, ckron ws.reverse = some w := by
+    cases hr : ws.reverse with
+    | nil => simp at hr; exact absurd hr hwne
+    | cons a r => exact ⟨_, rfl⟩
+  obtain ⟨w, hw'⟩ := hck
+  have hwe : ckronRev ws = w := by simp [ckronRev, hw']
+  refine ⟨gridRows xs, w, ?_, g2, ?_, ?_, g1, ?_⟩
+  · unfold tensorRule gridmake
+    rw [if_neg (by omega), hw']
+  · rw [← hwe, w2, hshape]
+  · exact mixedRadix_lt _ _ (List.forall₂_map_right_iff.mpr h)
+  · rw [← hwe, ← hshape]; exact w1
+
+/-- **The product rule integrates products of univariate integrands exactly when the factors
+    do** (corollary of `tensor_order`).  For `d ≥ 2` one-dimensional rules `r = (nodes, weights, f)`
+    with `|weights| = |nodes|`, the rule returned by `tensorRule` satisfies
+    `Σ_idx W[idx] · Π_k f_k(X[idx][k]) = Π_k (Σ_i w_k[i] f_k(x_k[i]))`.
+    With `f_k(t) = t^{m_k}` this says: every mixed moment of the tensor rule is the product of the
+    one-dimensional moments, so the tensor rule is exact for every monomial `Π t_k^{m_k}` with
+    `m_k` ≤ the degree of rule `k`. -/
+theorem tensor_exact_products (rules : List (List K × List K × (K → K))) (hd : 2 ≤ rules.length)
+    (hshape : ∀ r ∈ rules, r.2.1.length = r.1.length) :
+    ∃ g w, tensorRule (rules.map fun r => r.1) (rules.map fun r => r.2.1) = some (g, w) ∧
+      quadSumRows w g (fun row => (List.zipWith (fun r v => r.2.2 v) rules row).prod)
+        = (rules.map fun r => quadSum r.2.1 r.1 r.2.2).prod := by
+  have hne : rules ≠ [] := by intro h0; subst h0; simp at hd
+  have hck : ∃ w, ckron (rules.map fun r => r.2.1).reverse = some w := by
+    cases hr : (rules.map fun r => r.2.1).reverse with
+    | nil => simp at hr; exact absurd hr hne
+    | cons a r => exact ⟨_, rfl⟩
+  obtain ⟨w, hw⟩ := hck
+  have hwe : ckronRev (rules.map fun r => r.2.1) = w := by simp [ckronRev, hw]
+  refine ⟨gridRows (rules.map fun r => r.1), w, ?_, ?_⟩
+  · unfold tensorRule gridmake
+    rw [if_neg (by simp; omega), hw]
+  · rw [← hwe]
+    exact tensor_product_sum rules hne hshape
+
+/-- non-vacuity: trapezoid on `[0,2]` (3 nodes) ⊗ Simpson on `[0,2]` (3 nodes) integrates
+    `t₀ · t₁³` over the square: `2 · 4 = 8` -/
+example :
+    let r0 : List Rat × List Rat × (Rat → Rat) := ((trapRule 3 (0 : Rat) 2).get!.1, (trapRule 3 (0 : Rat) 2).get!.2, fun t => t)
+    let r1 : List Rat × List Rat × (Rat → Rat) := ((simpRule 3 (0 : Rat) 2).1, (simpRule 3 (0 : Rat) 2).2, fun t => t ^ 3)
+    ([r0, r1].map fun r => quadSum r.2.1 r.1 r.2.2).prod = 8 := by
+  decide +kernel
+
+/-- every position `idx < Π n_k` of the tensor rule is the position of exactly the multi-index
+    `digits idx ns`: `mixedRadix` is onto `[0, Π n_k)` with the explicit inverse `digits`. -/
+theorem tensor_order_onto (ns : List Nat) (idx : Nat) (h : idx < ns.prod) :
+    List.Forall₂ (fun i n => i < n) (digits idx ns) ns ∧ mixedRadix (digits idx ns) ns = idx :=
+  digits_spec ns idx h
+
+/-- non-vacuity / sanity: 2 × 3 nodes, position of the multi-index (1, 2) is 1 + 2·2 = 5 -/
+example : tensorRule [[(10 : Rat), 11], [20, 21, 22]] [[1, 2], [3, 5, 7]]
+    = some ([[10, 20], [11, 20], [10, 21], [11, 21], [10, 22], [11, 22]], [3, 6, 5, 10, 7, 14]) := by
+  decide +kernel
+example : mixedRadix [1, 2] [2, 3] = 5 := by decide
+
+/-! ## qnwnorm: the affine image has the requested mean and covariance -/
+
+/-- **qnwnorm_moments (d dimensions).** Let `(Z, W)` be a rule with total mass 1, mean 0 and
+    identity second moments (what the tensor product of standard normal rules with `n_k ≥ 2`
+    provides), `L` the matrix the code obtains from `la.cholesky` / `la.sqrtm` and `X` the rows
+    `nodes.dot(L) + mu` computed by `affineMap`.  Then the rule `(X, W)` has mean `mu` and
+    covariance `LᵀL`; in particular covariance `S` whenever `LᵀL = S` (the upper Cholesky factor:
+    `UᵀU = S`; the symmetric square root: `R R = S`, `Rᵀ = R`). -/
+theorem qnwnorm_moments (W : List K) (Z L : List (List K)) (mu : List K)
+    (hlen : W.length = Z.length) (hrows : ∀ z ∈ Z, z.length = L.length)
+    (h0 : quadSumRows W Z (fun _ => 1) = 1)
+    (h1 : ∀ k, k < L.length → quadSumRows W Z (fun z => z.getD k 0) = 0)
+    (h2 : ∀ k k', k < L.length → k' < L.length →
+      quadSumRows W Z (fun z => z.getD k 0 * z.getD k' 0) = if k = k' then 1 else 0) :
+    (∀ j, j < mu.length → quadSumRows W (affineMap L mu Z) (fun x => x.getD j 0) = mu.getD j 0) ∧
+    (∀ j l, j < mu.length → l < mu.length →
+      quadSumRows W (affineMap L mu Z) (fun x => (x.getD j 0 - mu.getD j 0) * (x.getD l 0 - mu.getD l 0))
+        = ∑ k ∈ range L.length, (L.getD k []).getD j 0 * (L.getD k []).getD l 0) ∧
+    (∀ S : Nat → Nat → K,
+      (∀ j l, j < mu.length → l < mu.length →
+        ∑ k ∈ range L.length, (L.getD k []).getD j 0 * (L.getD k []).getD l 0 = S j l) →
+      ∀ j l, j < mu.length → l < mu.length →
+        quadSumRows W (affineMap L mu Z) (fun x => (x.getD j 0 - mu.getD j 0) * (x.getD l 0 - mu.getD l 0))
+          = S j l) := by
+  have hlen' : W.length = (affineMap L mu Z).length := by simp [affineMap, hlen]
+  have hrow : ∀ r ∈ range W.length, (Z.getD r []).length = L.length := by
+    intro r hr
+    have hr' : r < Z.length := by rw [← hlen]; simpa using hr
+    apply hrows
+    simp [List.getD_eq_getElem?_getD, hr']
+  have hX : ∀ r ∈ range W.length, ∀ j, j < mu.length →
+      ((affineMap L mu Z).getD r []).getD j 0
+        = (∑ k ∈ range L.length, (Z.getD r []).getD k 0 * (L.getD k []).getD j 0) + mu.getD j 0 := by
+    intro r hr j hj
+    have hr' : r < Z.length := by rw [← hlen]; simpa using hr
+    rw [affineMap_getD L mu Z r hr', affineRow_getD L mu _ j hj (hrow r hr)]
+  rw [quadSumRows_eq_sum W Z hlen] at h0
+  have h0' : ∑ r ∈ range W.length, W.getD r 0 = 1 := by simpa using h0
+  have h1' : ∀ k ∈ range L.length, ∑ r ∈ range W.length, W.getD r 0 * (Z.getD r []).getD k 0 = 0 := by
+    intro k hk
+    rw [← quadSumRows_eq_sum W Z hlen (fun z => z.getD k 0)]
+    exact h1 k (by simpa using hk)
+  have h2' : ∀ k ∈ range L.length, ∀ k' ∈ range L.length,
+      ∑ r ∈ range W.length, W.getD r 0 * ((Z.getD r []).getD k 0 * (Z.getD r []).getD k' 0)
+        = if k = k' then 1 else 0 := by
+    intro k hk k' hk'
+    rw [← quadSumRows_eq_sum W Z hlen (fun z => z.getD k 0 * z.getD k' 0)]
+    exact h2 k k' (by simpa using hk) (by simpa using hk')
+  have hmean : ∀ j, j < mu.length →
+      quadSumRows W (affineMap L mu Z) (fun x => x.getD j 0) = mu.getD j 0 := by
+    intro j hj
+    rw [quadSumRows_eq_sum W _ hlen']
+    rw [Finset.sum_congr rfl (fun r hr => by rw [hX r hr j hj])]
+    exact affine_mean_fin W.length L.length (fun r => W.getD r 0)
+      (fun r k => (Z.getD r []).getD k 0) (fun k j => (L.getD k []).getD j 0) (mu.getD j 0) j h0' h1'
+  have hcov : ∀ j l, j < mu.length → l < mu.length →
+      quadSumRows W (affineMap L mu Z) (fun x => (x.getD j 0 - mu.getD j 0) * (x.getD l 0 - mu.getD l 0))
+        = ∑ k ∈ range L.length, (L.getD k []).getD j 0 * (L.getD k []).getD l 0 := by
+    intro j l hj hl
+    rw [quadSumRows_eq_sum W _ hlen']
+    rw [Finset.sum_congr rfl (fun r hr => by rw [hX r hr j hj, hX r hr l hl, add_sub_cancel_right,
+      add_sub_cancel_right])]
+    exact affine_cov_fin W.length L.length (fun r => W.getD r 0)
+      (fun r k => (Z.getD r []).getD k 0) (fun k j => (L.getD k []).getD j 0) j l h2'
+  exact ⟨hmean, hcov, fun S hS j l hj hl => by rw [hcov j l hj hl, hS j l hj hl]⟩
+
+/-- **Mixed moments of the tensor rule** (`d ≥ 2`): with exponents `e j` for dimension `j`,
+    `Σ_idx W[idx] · Π_j X[idx][j]^{e j} = Π_j (Σ_i w_j[i] x_j[i]^{e j})` — every mixed moment is the
+    product of the one-dimensional moments, so the tensor rule is exact on `Π t_j^{e j}` whenever
+    rule `j` is exact up to degree `e j`. -/
+theorem tensor_mixed_moments' (rules1 : List (List K × List K)) (hd : 2 ≤ rules1.length)
+    (hshape : ∀ r ∈ rules1, r.2.length = r.1.length) (e : Nat → Nat) :
+    ∃ X W, tensorRule (rules1.map fun r => r.1) (rules1.map fun r => r.2) = some (X, W) ∧
+      quadSumRows W X (fun row => ∏ j ∈ range rules1.length, (row.getD j 0) ^ (e j))
+        = ∏ j ∈ range rules1.length,
+            quadSum (rules1.getD j ([], [])).2 (rules1.getD j ([], [])).1 (fun t => t ^ (e j)) := by
+  have hne : rules1 ≠ [] := by intro h0; subst h0; simp at hd
+  have hck : ∃ w, ckron (rules1.map fun r => r.2).reverse = some w := by
+    cases hr : (rules1.map fun r => r.2).reverse with
+    | nil => simp at hr; exact absurd hr hne
+    | cons a r => exact ⟨_, rfl⟩
+  obtain ⟨w, hw⟩ := hck
+  have hwe : ckronRev (rules1.map fun r => r.2) = w := by simp [ckronRev, hw]
+  refine ⟨gridRows (rules1.map fun r => r.1), w, ?_, ?_⟩
+  · unfold tensorRule gridmake
+    rw [if_neg (by simp; omega), hw]
+  · rw [← hwe]
+    exact tensor_mixed_moments rules1 hne hshape e
+
+/-- **qnwnorm, d ≥ 2, end to end in the model.**  Take one-dimensional rules with mass 1, mean 0
+    and second moment 1 (what `_qnwnorm1(n_j)`, `n_j ≥ 2`, delivers up to rounding — checked by the
+    spec run), form the tensor rule (`gridmake`, `ckron` of the reversed weights) and map the nodes
+    by `nodes.dot(L) + mu`.  The resulting rule has mean `mu` and covariance `LᵀL` — hence the
+    requested covariance when `L` is the upper Cholesky factor or the symmetric square root. -/
+theorem qnwnorm_rule_moments (rules1 : List (List K × List K)) (hd : 2 ≤ rules1.length)
+    (hshape : ∀ r ∈ rules1, r.2.length = r.1.length)
+    (hm : ∀ r ∈ rules1, quadSum r.2 r.1 (fun t => t ^ 0) = 1 ∧ quadSum r.2 r.1 (fun t => t ^ 1) = 0 ∧
+      quadSum r.2 r.1 (fun t => t ^ 2) = 1)
+    (L : List (List K)) (mu : List K) (hL : L.length = rules1.length) :
+    ∃ Z W, tensorRule (rules1.map fun r => r.1) (rules1.map fun r => r.2) = some (Z, W) ∧
+      (∀ j, j < mu.length → quadSumRows W (affineMap L mu Z) (fun x => x.getD j 0) = mu.getD j 0) ∧
+      (∀ j l, j < mu.length → l < mu.length →
+        quadSumRows W (affineMap L mu Z) (fun x => (x.getD j 0 - mu.getD j 0) * (x.getD l 0 - mu.getD l 0))
+          = ∑ k ∈ range L.length, (L.getD k []).getD j 0 * (L.getD k []).getD l 0) := by
+  have hne : rules1 ≠ [] := by intro h0; subst h0; simp at hd
+  have hxne : (rules1.map fun r => r.1) ≠ [] := by simp [hne]
+  have hwne : (rules1.map fun r => r.2) ≠ [] := by simp [hne]
+  have hck : ∃ w, ckron (rules1.map fun r => r.2).reverse = some w := by
+    cases hr : (rules1.map fun r => r.2).reverse with
+    | nil => simp at hr; exact absurd hr hne
+    | cons a r => exact ⟨_, rfl⟩
+  obtain ⟨w, hw⟩ := hck
+  have hwe : ckronRev (rules1.map fun r => r.2) = w := by simp [ckronRev, hw]
+  obtain ⟨s0, s1, s2⟩ := tensor_standard rules1 hne hshape hm
+  rw [hwe] at s0 s1 s2
+  have hsh : (rules1.map fun r => r.2).map List.length = (rules1.map fun r => r.1).map List.length := by
+    rw [List.map_map, List.map_map]
+    apply List.map_congr_left
+    intro r hr
+    exact hshape r hr
+  have hlen : w.length = (gridRows (rules1.map fun r => r.1)).length := by
+    rw [← hwe, ckronRev_length _ hwne, gridRows_length _ hxne, hsh]
+  have hrows : ∀ z ∈ gridRows (rules1.map fun r => r.1), z.length = L.length := by
+    intro z hz
+    rw [gridRows_row_length _ hxne z hz, hL]; simp
+  obtain ⟨c1, c2, _⟩ := qnwnorm_moments w (gridRows (rules1.map fun r => r.1)) L mu hlen hrows s0
+    (fun k hk => s1 k (by rw [← hL]; exact hk))
+    (fun k k' hk hk' => s2 k k' (by rw [← hL]; exact hk) (by rw [← hL]; exact hk'))
+  refine ⟨gridRows (rules1.map fun r => r.1), w, ?_, c1, c2⟩
+  unfold tensorRule gridmake
+  rw [if_neg (by simp; omega), hw]
+
+/-- non-vacuity of the hypotheses of `qnwnorm_rule_moments` / `tensor_mixed_moments'`: the
+    two-point rule `±1` with weights `1/2` (this *is* the exact Gauss-Hermite rule for `n = 2`) -/
+example : let r : List Rat × List Rat := ([-1, 1], [1 / 2, 1 / 2])
+    r.2.length = r.1.length ∧ quadSum r.2 r.1 (fun t => t ^ 0) = 1 ∧ quadSum r.2 r.1 (fun t => t ^ 1) = 0 ∧
+      quadSum r.2 r.1 (fun t => t ^ 2) = 1 := by
+  refine ⟨by decide, ?_, ?_, ?_⟩ <;> decide +kernel
+
+/-- **qnwnorm_moments (d = 1)**: `nodes * s + mu` has mean `mu` and variance `s²`. -/
+theorem qnwnorm_moments_1d (w z : List K) (s mu : K) (hlen : w.length = z.length)
+    (h0 : quadSum w z (fun _ => 1) = 1) (h1 : quadSum w z (fun t => t) = 0)
+    (h2 : quadSum w z (fun t => t ^ 2) = 1) :
+    quadSum w (affine1 s mu z) (fun t => t) = mu ∧
+    quadSum w (affine1 s mu z) (fun t => (t - mu) ^ 2) = s ^ 2 := by
+  have hq : ∀ (x : List K) (F : K → K), w.length = x.length → quadSum w x F
+      = ∑ i ∈ range w.length, w.getD i 0 * F (x.getD i 0) := by
+    intro x F hx
+    unfold quadSum
+    rw [dot_eq_sum _ _ (by simp [hx])]
+    apply Finset.sum_congr rfl
+    intro i hi
+    have : i < x.length := by rw [← hx]; simpa using hi
+    simp [List.getD_eq_getElem?_getD, this]
+  have hl : w.length = (affine1 s mu z).length := by simp [affine1, hlen]
+  have hx : ∀ i ∈ range w.length, (affine1 s mu z).getD i 0 = z.getD i 0 * s + mu := by
+    intro i hi
+    have : i < z.length := by rw [← hlen]; simpa using hi
+    simp [affine1, List.getD_eq_getElem?_getD, this]
+  rw [hq z _ hlen] at h0 h1 h2
+  rw [hq _ _ hl, hq _ _ hl]
+  constructor
+  · rw [Finset.sum_congr rfl (fun i hi => by rw [hx i hi])]
+    have : ∀ i ∈ range w.length, w.getD i 0 * (z.getD i 0 * s + mu)
+        = s * (w.getD i 0 * z.getD i 0) + mu * (w.getD i 0 * 1) := by intro i _; ring
+    rw [Finset.sum_congr rfl this, Finset.sum_add_distrib, ← Finset.mul_sum, ← Finset.mul_sum, h0, h1]
+    ring
+  · rw [Finset.sum_congr rfl (fun i hi => by rw [hx i hi])]
+    have : ∀ i ∈ range w.length, w.getD i 0 * (z.getD i 0 * s + mu - mu) ^ 2
+        = s ^ 2 * (w.getD i 0 * z.getD i 0 ^ 2) := by intro i _; ring
+    rw [Finset.sum_congr rfl this, ← Finset.mul_sum, h2]
+    ring
+
+/-- non-vacuity: the 2-point rule `±1`, weights `1/2` has mass 1, mean 0, variance 1; mapped with
+    `s = 3`, `mu = 5` the nodes are `2, 8` -/
+example : quadSum [(1 / 2 : Rat), 1 / 2] [-1, 1] (fun _ => 1) = 1 ∧
+    quadSum [(1 / 2 : Rat), 1 / 2] [-1, 1] (fun t => t) = 0 ∧
+    quadSum [(1 / 2 : Rat), 1 / 2] [-1, 1] (fun t => t ^ 2) = 1 ∧
+    affine1 (3 : Rat) 5 [-1, 1] = [2, 8] := by
+  refine ⟨?_, ?_, ?_, ?_⟩ <;> decide +kernel
+
+/-- non-vacuity (d = 2): the tensor rule of two `±1` rules satisfies the hypotheses of
+    `qnwnorm_moments`; with the upper factor `L = [[2, 1], [0, 3]]`, `LᵀL = [[4, 2], [2, 10]]` -/
+example :
+    let W : List Rat := [1 / 4, 1 / 4, 1 / 4, 1 / 4]
+    let Z : List (List Rat) := [[-1, -1], [1, -1], [-1, 1], [1, 1]]
+    quadSumRows W Z (fun _ => 1) = 1 ∧
+    (∀ k, k < 2 → quadSumRows W Z (fun z => z.getD k 0) = 0) ∧
+    (∀ k k', k < 2 → k' < 2 →
+      quadSumRows W Z (fun z => z.getD k 0 * z.getD k' 0) = if k = k' then 1 else 0) ∧
+    affineMap [[2, 1], [0, 3]] [10, 20] Z = [[8, 16], [12, 18], [8, 22], [12, 24]] := by
+  refine ⟨by decide +kernel, ?_, ?_, by decide +kernel⟩
+  · intro k hk; interval_cases k <;> decide +kernel
+  · intro k k' hk hk'; interval_cases k <;> interval_cases k' <;> decide +kernel
+
+/-! ## error paths of the model -/
+
+/-- `qnwtrap` raises exactly for `n < 1`; `gridmake` fails exactly for fewer than two arrays
+    (`IndexError`), `ckron` exactly for no array (`TypeError`). -/
+theorem error_paths (n : Nat) (a b : K) (arrs : List (List K)) :
+    (trapRule n a b = none ↔ n < 1) ∧ (gridmake arrs = none ↔ arrs.length < 2) ∧
+    (ckron arrs = none ↔ arrs = []) := by
+  refine ⟨?_, ?_, ?_⟩
+  · unfold trapRule; split <;> simp_all
+  · unfold gridmake; split <;> simp_all
+  · cases arrs <;> simp [ckron]
+
+/-! ## qnwunif, qnwequi, quadrect -/
+
+/-- **quadrect equals weights·f(nodes)** (definition of the model, stated for the audit) -/
+theorem quadrect_eq (weights nodes : List K) (f : K → K) :
+    quadSum weights nodes f = dot weights (nodes.map f) := rfl
+
+/-- **qnwunif**: dividing the Gauss-Legendre weights by the volume of the box divides every
+    quadrature sum by that volume (`dn` = number of entries of `n`; `a`, `b` scalars or vectors) … -/
+theorem unif_scales (w a b y : List K) (dn : Nat) :
+    dot (unifWeights w a b dn) y
+      = dot w y / prodL (boxSides (max dn (max a.length b.length)) a b) := by
+  unfold unifWeights
+  exact dot_map_div w y _
+
+/-- … the volume taken for **scalar bounds and a vector `n`** (`d = len n ≥ 1`) is `(b − a)^d`,
+    not `b − a` (the case repaired in /repo by `fix: qnwunif weights must sum to one …`) … -/
+theorem unif_volume_scalar_bounds (d : Nat) (hd : 1 ≤ d) (a b : K) :
+    prodL (boxSides (max d (max [a].length [b].length)) [a] [b]) = (b - a) ^ d := by
+  have hmax : max d (max [a].length [b].length) = d := by simp; omega
+  rw [hmax]
+  have hb : boxSides d [a] [b] = List.replicate d (b - a) := by
+    simp [boxSides, broadcastTo]
+  rw [hb]
+  unfold prodL
+  rw [← List.prod_eq_foldl, List.prod_replicate]
+
+/-- … and for vector bounds it is `Π (b_k − a_k)` -/
+theorem unif_volume_vector_bounds (a b : List K) (hlen : a.length = b.length) (h2 : 2 ≤ a.length) :
+    boxSides (max a.length (max a.length b.length)) a b = List.zipWith (fun y x => y - x) b a := by
+  have h1 : ¬ (a.length = 1) := by omega
+  have h1' : ¬ (b.length = 1) := by omega
+  simp only [boxSides, broadcastTo, h1, h1', if_false, List.length_zipWith]
+  rw [if_neg (by omega)]
+
+/-- … so in one dimension the Lebesgue moments `(b^{k+1} − a^{k+1})/(k+1)` of qnwlege become the
+    moments of the uniform law on `[a, b]`, total mass 1 included (`k = 0`). -/
+theorem unif_moments (w x : List K) (a b : K) (k : Nat)
+    (h : quadSum w x (fun t => t ^ k) = (b ^ (k + 1) - a ^ (k + 1)) / ((k + 1 : Nat) : K)) :
+    quadSum (unifWeights w [a] [b] 1) x (fun t => t ^ k)
+      = (b ^ (k + 1) - a ^ (k + 1)) / ((k + 1 : Nat) : K) / (b - a) := by
+  unfold quadSum at *
+  rw [unif_scales, h]
+  simp [prodL, boxSides, broadcastTo]
+
+/-- non-vacuity of `unif_moments`: the midpoint rule on `[0, 2]` (one node) has the Lebesgue
+    moments of degree 0 and 1; its scaled weights are `[1]` -/
+example : quadSum [(2 : Rat)] [1] (fun t => t ^ 1) = ((2 : Rat) ^ (1 + 1) - 0 ^ (1 + 1)) / ((1 + 1 : Nat) : Rat) ∧
+    unifWeights [(2 : Rat)] [0] [2] 1 = [1] := by
+  constructor <;> decide +kernel
+
+/-- the repaired case at `ℚ`: two dimensions, scalar bounds `0, 2`: the four tensor weights of the
+    2 × 2 Gauss-Legendre rule (each 1) are divided by `(2−0)² = 4` and sum to one -/
+example : unifWeights [(1 : Rat), 1, 1, 1] [0] [2] 2 = [1 / 4, 1 / 4, 1 / 4, 1 / 4] := by decide +kernel
+
+/-- **qnwequi**: all `n` weights equal `volume / n`, and they sum to the volume. -/
+theorem equi_weights (n : Nat) (hn : 0 < n) (a b : List K) :
+    (∀ w ∈ equiWeights n a b, w = prodL (List.zipWith (fun y x => y - x) b a) / (n : K)) ∧
+    (equiWeights n a b).length = n ∧
+    (equiWeights n a b).sum = prodL (List.zipWith (fun y x => y - x) b a) := by
+  unfold equiWeights
+  refine ⟨?_, by simp, ?_⟩
+  · intro w hw
+    rw [List.eq_of_mem_replicate hw, mul_one]
+  · rw [List.sum_replicate, mul_one, nsmul_eq_mul]
+    have : (n : K) ≠ 0 := by
+      have : n ≠ 0 := by omega
+      exact_mod_cast this
+    field_simp
+
+example : equiWeights 4 [(0 : Rat), 1] [2, 4] = [3 / 2, 3 / 2, 3 / 2, 3 / 2] := by decide +kernel
+
+/-! ## The Legendre recurrence of `_qnwlege1` -/
+
+/-- **The inner loop of `_qnwlege1` computes consecutive Legendre values, for every n.**
+    `legendreP` is defined by Bonnet's recurrence; after the `for j in range(1, n+1)` loop the
+    state is `(p1, p2) = (P_n(z), P_{n−1}(z))` (and `(1, 0)` for `n = 0`). -/
+theorem lege_recurrence_is_legendre (z : K) :
+    legeP 0 z = (1, 0) ∧ ∀ n, legeP (n + 1) z = (legendreP z (n + 1), legendreP z n) :=
+  ⟨legeP_zero z, legeP_succ z⟩
+
+/-- the Newton update of `_qnwlege1` written with Legendre values:
+    `pp = n (z P_n − P_{n−1})/(z² − 1)`, `z ← z − P_n/pp` -/
+theorem lege_step_formula (z : K) (n : Nat) :
+    legeStep (n + 1) z =
+      (z - legendreP z (n + 1) /
+          (((n + 1 : Nat) : K) * (z * legendreP z (n + 1) - legendreP z n) / (z * z - 1)),
+        ((n + 1 : Nat) : K) * (z * legendreP z (n + 1) - legendreP z n) / (z * z - 1)) := by
+  unfold legeStep
+  rw [legeP_succ]
+
+/-- **legendre_derivative_formula** (in `K[X]`, `legendrePoly` = Bonnet's recurrence, whose values
+    are the `legendreP` the loop computes): `(X² − 1) Pₙ' = n (X Pₙ − Pₙ₋₁)`, every `n ≥ 1`. -/
+theorem legendre_derivative_formula (n : Nat) :
+    (∀ z : K, (legendrePoly (n + 1)).eval z = legendreP z (n + 1)) ∧
+    (Polynomial.X ^ 2 - 1) * Polynomial.derivative (legendrePoly (n + 1) : Polynomial K)
+      = ((n + 1 : Nat) : Polynomial K) * (Polynomial.X * legendrePoly (n + 1) - legendrePoly n) :=
+  ⟨fun z => legendrePoly_eval z (n + 1), legendrePoly_derivative_formula n⟩
+
+/-- **The iteration of `_qnwlege1` is Newton's method on `Pₙ`.**  Away from `z² = 1` the quantity
+    `pp` the code forms is exactly `Pₙ'(z)`, and the update is `z − Pₙ(z)/Pₙ'(z)`, for every `n ≥ 1`. -/
+theorem lege_step_is_newton (n : Nat) (z : K) (hz : z * z - 1 ≠ 0) :
+    (legeStep (n + 1) z).2 = (Polynomial.derivative (legendrePoly (n + 1) : Polynomial K)).eval z ∧
+    (legeStep (n + 1) z).1
+      = z - (legendrePoly (n + 1) : Polynomial K).eval z
+            / (Polynomial.derivative (legendrePoly (n + 1) : Polynomial K)).eval z := by
+  have h := congrArg (Polynomial.eval z) (legendrePoly_derivative_formula (K := K) n)
+  simp only [Polynomial.eval_mul, Polynomial.eval_sub, Polynomial.eval_pow, Polynomial.eval_X,
+    Polynomial.eval_one, Polynomial.eval_natCast, legendrePoly_eval] at h
+  have hd : (Polynomial.derivative (legendrePoly (n + 1) : Polynomial K)).eval z
+      = ((n + 1 : Nat) : K) * (z * legendreP z (n + 1) - legendreP z n) / (z * z - 1) := by
+    rw [eq_div_iff hz, ← h]; ring
+  rw [lege_step_formula, legendrePoly_eval, hd]
+  exact ⟨rfl, rfl⟩
+
+/-- **The recurrence-defined Legendre polynomials are orthogonal on `[−1, 1]`.**  `Λ` is any
+    linear functional on `K[X]` obeying the fundamental theorem of calculus on `[−1, 1]`
+    (`Λ(f') = f(1) − f(−1)` for every polynomial, i.e. `Λ = ∫_{−1}^{1}`).  Then `Pₙ` satisfies
+    Legendre's differential equation `((1−X²)Pₙ')' = −n(n+1)Pₙ`, has degree exactly `n`, is
+    orthogonal to every `Pₘ`, `m ≠ n`, and to **every** polynomial of degree `< n`. -/
+theorem legendre_orthogonality (Λ : Polynomial K →ₗ[K] K)
+    (hFTC : ∀ f : Polynomial K, Λ (Polynomial.derivative f) = f.eval 1 - f.eval (-1)) (n : Nat) :
+    (legendrePoly n : Polynomial K).degree = (n : WithBot Nat) ∧
+    Polynomial.derivative ((1 - Polynomial.X ^ 2) * Polynomial.derivative (legendrePoly n : Polynomial K))
+      = -(((n : Polynomial K)) * ((n : Polynomial K) + 1)) * legendrePoly n ∧
+    (∀ m, n ≠ m → Λ (legendrePoly n * legendrePoly m) = 0) ∧
+    (∀ q : Polynomial K, q.degree < (n : WithBot Nat) → Λ (legendrePoly n * q) = 0) :=
+  ⟨legendrePoly_degree n, legendrePoly_ode n, fun m h => legendrePoly_orthogonal Λ hFTC n m h,
+    fun q hq => legendrePoly_orth_degree Λ hFTC n q hq⟩
+
+/-- **Gauss-Legendre on `[−1, 1]`: degree `2n − 1` from `n` conditions — partial.**  With the
+    orthogonality above, `gauss_exactness_reduction_partial` needs only two premises: if every
+    node is a root of the `Pₙ` the code's loop evaluates and the rule integrates polynomials of
+    degree `< n` exactly, then it integrates **every** polynomial of degree `< 2n` exactly.
+    *Missing*: that the Newton iteration ends at the `n` roots (floating point) and that the
+    weights `2/((1−z²)Pₙ'(z)²)` are the interpolatory ones (Christoffel-Darboux); both are covered
+    by the exact moment check of the spec run only. -/
+theorem lege_gauss_exactness_partial (Λ : Polynomial K →ₗ[K] K)
+    (hFTC : ∀ f : Polynomial K, Λ (Polynomial.derivative f) = f.eval 1 - f.eval (-1))
+    (nodes weights : List K) (n : Nat)
+    (hroot : ∀ x ∈ nodes, (legendrePoly n : Polynomial K).eval x = 0)
+    (hint : ∀ r : Polynomial K, r.degree < (n : WithBot Nat) →
+      quadSum weights nodes (fun t => r.eval t) = Λ r)
+    (p : Polynomial K) (hp : p.degree < ((n + n : Nat) : WithBot Nat)) :
+    quadSum weights nodes (fun t => p.eval t) = Λ p :=
+  gauss_reduction nodes weights n (legendrePoly n) (legendrePoly_degree n) Λ hroot
+    (fun q hq => legendrePoly_orth_degree Λ hFTC n q hq) hint p hp
+
+/-- non-vacuity of the hypothesis `hFTC`: the Lebesgue functional on `[−1, 1]`, i.e. the linear map
+    with the moments `Λ(c·Xᵏ) = c·(1^{k+1} − (−1)^{k+1})/(k+1)` that the spec run checks qnwlege
+    against (`a = −1`, `b = 1`), obeys the fundamental theorem of calculus. -/
+theorem lebesgue_functional_ftc :
+    (∀ (k : Nat) (c : K), lebesgue11 (Polynomial.monomial k c)
+        = c * ((1 ^ (k + 1) - (-1 : K) ^ (k + 1)) / ((k + 1 : Nat) : K))) ∧
+    (∀ f : Polynomial K, lebesgue11 (Polynomial.derivative f) = f.eval 1 - f.eval (-1)) :=
+  ⟨lebesgue11_monomial, lebesgue11_ftc⟩
+
+/-- … so `legendre_orthogonality` applies to it: e.g. `∫_{−1}^{1} P₃ P₁ = 0` -/
+example : lebesgue11 ((legendrePoly 3 : Polynomial ℚ) * legendrePoly 1) = 0 :=
+  (legendre_orthogonality lebesgue11 lebesgue11_ftc 3).2.2.1 1 (by decide)
+
+/-- facts about the recurrence used by the routine, for every `n`: `P_n(1) = 1`, and the parity
+    `P_n(−z) = (−1)ⁿ P_n(z)` (roots symmetric about 0 — only half of them are iterated on). -/
+theorem legendre_one_and_parity (z : K) (n : Nat) :
+    legendreP (1 : K) n = 1 ∧ legendreP (-z) n = (-1) ^ n * legendreP z n :=
+  ⟨legendreP_one n, legendreP_neg z n⟩
+
+/-- a root of `P_n` mirrored is a root of `P_n` -/
+theorem legendre_root_symm (z : K) (n : Nat) (h : legendreP z n = 0) : legendreP (-z) n = 0 := by
+  rw [legendreP_neg, h, mul_zero]
+
+example : legeP 3 (1 / 2 : Rat) = (-7 / 16, -1 / 8) := by decide +kernel
+
+/-- **Mirror indexing of `_qnwlege1`** (`nodes[i]`, `nodes[-i-1]`, `weights[-i-1] = weights[i]`),
+    for every `n`, every number of Newton iterations and every starting vector of length
+    `m = ⌊(n+1)/2⌋`: whenever the routine returns, it returns `n` nodes and `n` weights, the nodes
+    are placed symmetrically about the midpoint (`x_k + x_{n−1−k} = a + b`) and mirrored positions
+    carry the same weight — for every position `k` other than the middle one of an odd `n`
+    (there the iterate itself is stored; it equals the midpoint only if Newton has converged to
+    the root 0, which is floating-point behaviour and not claimed). -/
+theorem lege_rule_symmetric (n : Nat) (a b tol : K) (z0 : List K) (hm : z0.length = (n + 1) / 2)
+    (nodes weights : List K) (h : legeRule n a b tol z0 = some (nodes, weights))
+    (k : Nat) (hk : k < n) (hmid : k ≠ n - 1 - k) :
+    nodes.length = n ∧ weights.length = n ∧
+    nodes.getD k 0 + nodes.getD (n - 1 - k) 0 = a + b ∧
+    weights.getD k 0 = weights.getD (n - 1 - k) 0 :=
+  legeRule_symm n a b tol z0 hm nodes weights h k hk hmid
+
+/-- **Gauss-Legendre: support and positivity — partial.**  For `a < b`: if the final Newton
+    iterates `z` of the model lie in `(−1, 1)` and the derivative values `pp` are non-zero, then
+    every node lies strictly inside `(a, b)` and every weight `2·xl/((1−z²)·pp²)` is positive.
+    *Missing* (floating-point behaviour, covered only by the spec run on the real code): that
+    Newton's iteration from the tabulated starting values does end inside `(−1, 1)` at the `n`
+    distinct roots — and with it the exactness of degree `2n−1` (Christoffel-Darboux). -/
+theorem lege_support_positive_partial (n : Nat) (a b tol : K) (hab : a < b) (z0 : List K)
+    (hm : z0.length = (n + 1) / 2) (nodes weights : List K)
+    (h : legeRule n a b tol z0 = some (nodes, weights))
+    (hst : ∀ s ∈ (legeNewton n tol 100 0 z0).1, -1 < s.1 ∧ s.1 < 1 ∧ s.2 ≠ 0) :
+    (∀ x ∈ nodes, a < x ∧ x < b) ∧ (∀ w ∈ weights, 0 < w) :=
+  legeRule_support n a b tol hab z0 hm nodes weights h hst
+
+/-- non-vacuity of the hypothesis `hst` at `ℚ` (coarse tolerance): the final iterates are
+    `(13/15, …), (0, …)` -/
+example : ∀ s ∈ (legeNewton 3 (1 / 4 : Rat) 100 0 [4 / 5, 0]).1, -1 < s.1 ∧ s.1 < 1 ∧ s.2 ≠ 0 := by
+  decide +kernel
+
+/-- non-vacuity: the model at `ℚ` with a coarse tolerance (two and three nodes on `[0,1]`) -/
+example : legeRule 3 (0 : Rat) 1 (1 / 4) [4 / 5, 0]
+    = some ([37 / 330, 1 / 2, 293 / 330], [2500 / 10841, 4 / 9, 2500 / 10841]) := by decide +kernel
+
+/-! ## The Laguerre recurrence of `_qnwgamma1` -/
+
+/-- **The inner loop of `_qnwgamma1` computes consecutive generalised Laguerre values, for every
+    n**: after `for j in range(1, n+1)` the state is `(p1, p2) = (Lₙ(z), Lₙ₋₁(z))` with
+    `laguerreP a` defined by `(n+2) L_{n+2} = (2n+3+a−z) L_{n+1} − (n+1+a) L_n` (`a` = shape − 1). -/
+theorem gamma_recurrence_is_laguerre (a z : K) (n : Nat) :
+    lagLoop a z (n + 1) 1 1 0 = (laguerreP a z (n + 1), laguerreP a z n) :=
+  lagLoop_succ a z n
+
+/-- `X Lₙ' = n Lₙ − (n + a) Lₙ₋₁` in `K[X]` for every `n ≥ 1`, where `laguerrePoly a n` has the values
+    `laguerreP a z n`. -/
+theorem laguerre_derivative_formula (a : K) (n : Nat) :
+    (∀ z : K, (laguerrePoly a (n + 1)).eval z = laguerreP a z (n + 1)) ∧
+    Polynomial.X * Polynomial.derivative (laguerrePoly a (n + 1))
+      = ((n + 1 : Nat) : Polynomial K) * laguerrePoly a (n + 1)
+        - (((n + 1 : Nat) : Polynomial K) + Polynomial.C a) * laguerrePoly a n :=
+  ⟨fun z => laguerrePoly_eval a z (n + 1), (laguerrePoly_deriv_pair a n).2⟩
+
+/-- **The iteration of `_qnwgamma1` is Newton's method on `Lₙ`**: for `z ≠ 0` the code's
+    `pp = (n p1 − (n+a) p2)/z` equals `Lₙ'(z)` and the update is `z − Lₙ(z)/Lₙ'(z)`; the third
+    component is the `p2 = Lₙ₋₁(z)` used in the weight `factor/(pp·n·p2)`. -/
+theorem gamma_step_is_newton (a z : K) (n : Nat) (hz : z ≠ 0) :
+    lagStep (n + 1) a z =
+      (z - (laguerrePoly a (n + 1)).eval z / (Polynomial.derivative (laguerrePoly a (n + 1))).eval z,
+       (Polynomial.derivative (laguerrePoly a (n + 1))).eval z,
+       (laguerrePoly a n).eval z) := by
+  have h := congrArg (Polynomial.eval z) (laguerrePoly_deriv_pair a n).2
+  simp only [Polynomial.eval_mul, Polynomial.eval_sub, Polynomial.eval_add, Polynomial.eval_X,
+    Polynomial.eval_C, Polynomial.eval_natCast, laguerrePoly_eval] at h
+  have hd : (Polynomial.derivative (laguerrePoly a (n + 1))).eval z
+      = (((n + 1 : Nat) : K) * laguerreP a z (n + 1) - (((n + 1 : Nat) : K) + a) * laguerreP a z n) / z := by
+    rw [eq_div_iff hz, ← h]; ring
+  unfold lagStep
+  rw [lagLoop_succ, laguerrePoly_eval, laguerrePoly_eval, hd]
+
+example : lagLoop (1 / 2 : Rat) 2 2 1 1 0 = (-9 / 8, -1 / 2) := by decide +kernel
+
+/-! ## The Jacobi recurrence of `_qnwbeta1` -/
+
+/-- **The inner loop of `_qnwbeta1` computes consecutive Jacobi values, for every n** (`a`, `b` =
+    the beta parameters minus 1): entered with `p1 = P₁(z) = (a−b+(2+a+b)z)/2`, `p2 = 1`,
+    `temp = 2+a+b`, after the `n−1` passes of `for j in range(2, n+1)` the state is
+    `(p1, p2, temp) = (Pₙ(z), Pₙ₋₁(z), 2n+a+b)`, with `jacobiP` defined by the code's three-term
+    recurrence. -/
+theorem beta_recurrence_is_jacobi (a b z : K) (n : Nat) :
+    jacLoop a b z n 2 ((a - b + (((2 : Nat) : K) + (a + b)) * z) / ((2 : Nat) : K)) 1
+        (((2 : Nat) : K) + (a + b))
+      = (jacobiP a b z (n + 1), jacobiP a b z n, ((2 * (n + 1) : Nat) : K) + (a + b)) :=
+  jacLoop_succ a b z n
+
+example : jacobiP (0 : Rat) 0 (1 / 2) 3 = -7 / 16 := by decide +kernel  -- = Legendre P₃(1/2)
+
+/-- `(2n+a+b)(1−X²) Pₙ' = n(a−b−(2n+a+b)X) Pₙ + 2(n+a)(n+b) Pₙ₋₁` in `K[X]`, for every `n ≥ 1` and all
+    `a, b > −1` (i.e. beta parameters > 0), where `jacobiPoly a b n` has the values `jacobiP a b z n`. -/
+theorem jacobi_derivative_formula (a b : K) (ha : -1 < a) (hb : -1 < b) (n : Nat) :
+    (∀ z : K, (jacobiPoly a b (n + 1)).eval z = jacobiP a b z (n + 1)) ∧
+    (((2 * (n + 1) : Nat) : Polynomial K) + (Polynomial.C a + Polynomial.C b)) * (1 - Polynomial.X ^ 2)
+        * Polynomial.derivative (jacobiPoly a b (n + 1))
+      = ((n + 1 : Nat) : Polynomial K)
+          * (Polynomial.C a - Polynomial.C b
+              - (((2 * (n + 1) : Nat) : Polynomial K) + (Polynomial.C a + Polynomial.C b)) * Polynomial.X)
+          * jacobiPoly a b (n + 1)
+        + 2 * (((n + 1 : Nat) : Polynomial K) + Polynomial.C a) * (((n + 1 : Nat) : Polynomial K) + Polynomial.C b)
+          * jacobiPoly a b n :=
+  ⟨fun z => jacobiPoly_eval a b z (n + 1), (jacobiPoly_deriv_pair a b ha hb n).1⟩
+
+/-- **The iteration of `_qnwbeta1` is Newton's method on the Jacobi polynomial `Pₙ`**: for
+    `a, b > −1` and `z² ≠ 1` the code's
+    `pp = (n(a−b−temp·z)·p1 + 2(n+a)(n+b)·p2)/(temp(1−z²))` equals `Pₙ'(z)`, the update is
+    `z − Pₙ(z)/Pₙ'(z)`, and the returned `p2`, `temp` are `Pₙ₋₁(z)` and `2n+a+b` (used in the weight
+    `temp/(pp·p2)`), for every `n ≥ 1`. -/
+theorem beta_step_is_newton (a b z : K) (ha : -1 < a) (hb : -1 < b) (n : Nat) (hz : 1 - z * z ≠ 0) :
+    jacStep (n + 1) a b z =
+      (z - (jacobiPoly a b (n + 1)).eval z / (Polynomial.derivative (jacobiPoly a b (n + 1))).eval z,
+       (Polynomial.derivative (jacobiPoly a b (n + 1))).eval z,
+       (jacobiPoly a b n).eval z,
+       ((2 * (n + 1) : Nat) : K) + (a + b)) := by
+  have h := congrArg (Polynomial.eval z) (jacobiPoly_deriv_pair a b ha hb n).1
+  simp only [Polynomial.eval_mul, Polynomial.eval_sub, Polynomial.eval_add, Polynomial.eval_X,
+    Polynomial.eval_C, Polynomial.eval_natCast, Polynomial.eval_pow, Polynomial.eval_one,
+    Polynomial.eval_ofNat, jacobiPoly_eval] at h
+  have htau : ((2 * (n + 1) : Nat) : K) + (a + b) ≠ 0 := by
+    have h2 : (2 : K) ≤ ((2 * (n + 1) : Nat) : K) := by
+      have : 2 ≤ 2 * (n + 1) := by omega
+      exact_mod_cast this
+    have : (0 : K) < ((2 * (n + 1) : Nat) : K) + (a + b) := by linarith
+    exact this.ne'
+  have hden : (((2 * (n + 1) : Nat) : K) + (a + b)) * (1 - z * z) ≠ 0 := mul_ne_zero htau hz
+  have hd : (Polynomial.derivative (jacobiPoly a b (n + 1))).eval z
+      = (((n + 1 : Nat) : K) * (a - b - (((2 * (n + 1) : Nat) : K) + (a + b)) * z) * jacobiP a b z (n + 1)
+          + ((2 : Nat) : K) * (((n + 1 : Nat) : K) + a) * (((n + 1 : Nat) : K) + b) * jacobiP a b z n)
+        / ((((2 * (n + 1) : Nat) : K) + (a + b)) * (1 - z * z)) := by
+    rw [eq_div_iff hden]
+    push_cast at h ⊢
+    linear_combination h
+  unfold jacStep
+  simp only [Nat.add_sub_cancel]
+  rw [jacLoop_succ]
+  simp only [jacobiPoly_eval, hd]
+
+/-- non-vacuity of the parameter domain: `a = b = −1/2` (beta(1/2, 1/2)), `z = 1/3` -/
+example : (-1 : Rat) < -1 / 2 ∧ (1 : Rat) - (1 / 3) * (1 / 3) ≠ 0 := by constructor <;> norm_num
+
+/-! ## The Hermite recurrence of `_qnwnorm1` -/
+
+/-- **The inner loop of `_qnwnorm1` computes consecutive orthonormal Hermite values, for every n**
+    (`sq j` = the two square roots `(√(2/j), √((j−1)/j))` the code takes, `c = π^{−1/4}`):
+    after `for j in range(1, n+1)` the state is `(p1, p2) = (hₙ(z), hₙ₋₁(z))`. -/
+theorem norm_recurrence_is_hermite (sq : Nat → K × K) (c z : K) (n : Nat) :
+    hermLoop sq z (n + 1) 1 c 0 = (hermP sq c z (n + 1), hermP sq c z n) :=
+  hermLoop_succ sq c z n
+
+/-- **The iteration of `_qnwnorm1` is Newton's method on `hₙ`.**  If `sq` really holds the square
+    roots (`IsSqrtTable`: positive, with the right squares) and `r ≥ 0` is the `sqrt(2n)` of the
+    code (`r² = 2n`), then `pp = r·p2` is `hₙ'(z)`, the derivative of the polynomial whose values
+    the loop computes — so `z ← z − p1/pp` is `z − hₙ(z)/hₙ'(z)`, for every `n ≥ 1`. -/
+theorem norm_step_is_newton (sq : Nat → K × K) (h : IsSqrtTable sq) (c z : K) (n : Nat) (r : K)
+    (hr0 : 0 ≤ r) (hr : r * r = 2 * ((n + 1 : Nat) : K)) :
+    (∀ t : K, (hermPoly sq c (n + 1)).eval t = hermP sq c t (n + 1)) ∧
+    r * (hermLoop sq z (n + 1) 1 c 0).2
+      = (Polynomial.derivative (hermPoly sq c (n + 1))).eval z := by
+  refine ⟨fun t => hermPoly_eval sq c t (n + 1), ?_⟩
+  rw [hermLoop_succ, hermPoly_derivative sq h c n]
+  simp only [Polynomial.eval_mul, Polynomial.eval_natCast, Polynomial.eval_C, hermPoly_eval]
+  have hpos : 0 ≤ ((n + 1 : Nat) : K) * (sq (n + 1)).1 :=
+    mul_nonneg (Nat.cast_nonneg _) (h.pos1 (n + 1) (by omega)).le
+  have hn : ((n + 1 : Nat) : K) ≠ 0 := by
+    have : n + 1 ≠ 0 := by omega
+    exact_mod_cast this
+  have hsq : r ^ 2 = (((n + 1 : Nat) : K) * (sq (n + 1)).1) ^ 2 := by
+    have e : (((n + 1 : Nat) : K) * (sq (n + 1)).1) ^ 2
+        = ((n + 1 : Nat) : K) ^ 2 * ((sq (n + 1)).1 * (sq (n + 1)).1) := by ring
+    rw [e, h.sq1 (n + 1) (by omega), pow_two, hr]
+    field_simp
+  rw [(sq_eq_sq₀ hr0 hpos).mp hsq]
+
+/-- **Mirror indexing of `_qnwnorm1`** (`nodes[n-1-i] = z; nodes[i] = -z`,
+    `weights[n-1-i] = weights[i]`), for every `n` and every list of `m = ⌊(n+1)/2⌋` roots: `n` nodes
+    and `n` weights come back, mirrored nodes are opposite and mirrored weights equal (every
+    position except the middle one of an odd `n`, which holds `−z` of the last root itself). -/
+theorem norm_rule_symmetric (n : Nat) (zs pps : List K) (sqrtpi sqrt2 : K) (hm : zs.length = (n + 1) / 2)
+    (k : Nat) (hk : k < n) (hmid : k ≠ n - 1 - k) :
+    (hermAssemble n zs pps sqrtpi sqrt2).1.length = n ∧ (hermAssemble n zs pps sqrtpi sqrt2).2.length = n ∧
+    (hermAssemble n zs pps sqrtpi sqrt2).1.getD k 0 + (hermAssemble n zs pps sqrtpi sqrt2).1.getD (n - 1 - k) 0 = 0 ∧
+    (hermAssemble n zs pps sqrtpi sqrt2).2.getD k 0 = (hermAssemble n zs pps sqrtpi sqrt2).2.getD (n - 1 - k) 0 :=
+  hermAssemble_symm n zs pps sqrtpi sqrt2 hm k hk hmid
+
+example : hermAssemble 3 [(3 : Rat), 0] [2, 1] 1 1 = ([-3, 0, 3], [1 / 2, 2, 1 / 2]) := by decide +kernel
+
+/-- non-vacuity of `IsSqrtTable`: over `ℝ` the actual square roots satisfy it -/
+example : IsSqrtTable (fun j : Nat => (Real.sqrt (2 / (j : ℝ)), Real.sqrt (((j : ℝ) - 1) / (j : ℝ)))) where
+  pos1 := by
+    intro j hj
+    have : (0 : ℝ) < (j : ℝ) := by exact_mod_cast hj
+    exact Real.sqrt_pos.mpr (by positivity)
+  sq1 := by
+    intro j hj
+    have : (0 : ℝ) < (j : ℝ) := by exact_mod_cast hj
+    exact Real.mul_self_sqrt (by positivity)
+  nonneg2 := fun j _ => Real.sqrt_nonneg _
+  sq2 := by
+    intro j hj
+    have h1 : (1 : ℝ) ≤ (j : ℝ) := by exact_mod_cast hj
+    exact Real.mul_self_sqrt (div_nonneg (by linarith) (by linarith))
 
 end QE.C08
